@@ -22,6 +22,7 @@ Empty == {}
 SubOnly == {"sub"}
 ProgSub == {"prog", "sub"}
 KCmt == {"cmt"}
+KCmtJoin == {"cmt", "join"}
 KCpp == {"cpp"}
 KCmtCpp == {"cmt", "cpp"}
 KGarb == {"garb"}
